@@ -1,7 +1,7 @@
 /-
   Proofs/TreeWalk.lean — `transform` and `replace_children` keep the invariant (C08), parametric in the user function.
 -/
-import SqlglotModel.Proofs.TreeCopy
+import SqlglotModel.Proofs.TreeCopyShape
 
 namespace SqlglotModel.Tree
 
@@ -258,7 +258,7 @@ def TrFr (R : Id → Prop) (fuel : Nat) (fn : UserFun H) : Nat → Heap H → Na
   | f + 1, h, nx, node :: st =>
     ∀ h1 nx1 v, fn h nx node = some (h1, nx1, v) →
       (∀ m, ¬ R m → h1 m = h m) ∧ (Region h R → Keys h → Region h1 R ∧ Keys h1) ∧
-      (∀ c, Item.node c ∈ itemOfValue v → R c) ∧
+      (v ≠ .node node → ∀ c, Item.node c ∈ itemOfValue v → R c) ∧
       ∀ h2 nx2 d, transformStep fuel fn h nx node = some (h2, nx2, d) →
         TrFr R fuel fn f h2 nx2 (if d then childIds (h2 node).args ++ st else st)
 
@@ -294,7 +294,9 @@ theorem transformLoop_frame {R : Id → Prop} {fuel : Nat} {fn : UserFun H} :
           · simp only [Option.some.injEq, Prod.mk.injEq] at hstep
             obtain ⟨e, _, _⟩ := hstep; subst e
             exact ⟨hfr, hR1, hk1, hrest _ _ _ hstep'⟩
-          · split at hstep
+          · next hne =>
+            have hval := hval hne
+            split at hstep
             · next p k hp hkey =>
               split at hstep
               · next h2' hset =>
@@ -325,60 +327,146 @@ theorem transformLoop_frame {R : Id → Prop} {fuel : Nat} {fn : UserFun H} :
 def TransformFr (R : Id → Prop) (fuel : Nat) (fn : UserFun H) (h : Heap H) (nx : Nat) (root : Id) : Prop :=
   ∀ h1 nx1 v, fn h nx root = some (h1, nx1, v) →
     (∀ m, ¬ R m → h1 m = h m) ∧ (Region h R → Keys h → Region h1 R ∧ Keys h1) ∧
+    (v ≠ .node root → ∀ c, Item.node c ∈ itemOfValue v → R c) ∧
     (v = .node root → TrFr R fuel fn fuel h1 nx1 (childIds (h1 root).args))
 
 theorem opTransform_frame {R : Id → Prop} {fuel : Nat} {fn : UserFun H} {h h' : Heap H} {nx nx' : Nat} {root : Id}
     {r : Value} (hR : Region h R) (hk : Keys h) (hroot : R root) (ha : TransformFr R fuel fn h nx root)
-    (he : opTransform fuel fn h nx root = some (h', nx', r)) : ∀ m, ¬ R m → h' m = h m := by
+    (he : opTransform fuel fn h nx root = some (h', nx', r)) :
+    (∀ m, ¬ R m → h' m = h m) ∧ Region h' R ∧ (∀ c, Item.node c ∈ itemOfValue r → R c) := by
   unfold opTransform at he
   split at he
   · cases he
   · next h1 nx1 v hfn =>
-    obtain ⟨hfr, hreg, hrest⟩ := ha h1 nx1 v hfn
+    obtain ⟨hfr, hreg, hvalR, hrest⟩ := ha h1 nx1 v hfn
     obtain ⟨hR1, hk1⟩ := hreg hR hk
     split at he
     · next hv =>
       split at he
       · next h2 nx2 hl =>
         simp only [Option.some.injEq, Prod.mk.injEq] at he
-        obtain ⟨e, _, _⟩ := he; subst e
+        obtain ⟨e, _, e3⟩ := he; subst e; subst e3
         have hst : ∀ n, n ∈ childIds (h1 root).args → R n := by
           intro n hn
           obtain ⟨k, i, hs⟩ := isChild_stored (hk1 root) (mem_childIds hn)
           exact hR1.down root k i n hroot hs
-        obtain ⟨a, _, _⟩ := transformLoop_frame fuel h1 nx1 _ h2 nx2 hR1 hk1 hst (hrest hv) hl
-        intro m hm; rw [a m hm, hfr m hm]
+        obtain ⟨a, b, _⟩ := transformLoop_frame fuel h1 nx1 _ h2 nx2 hR1 hk1 hst (hrest hv) hl
+        refine ⟨fun m hm => by rw [a m hm, hfr m hm], b, ?_⟩
+        intro c hc
+        rw [hv] at hc
+        simp only [itemOfValue, List.mem_singleton, Item.node.injEq] at hc
+        subst hc; exact hroot
       · cases he
-    · have fin : ∀ x, some (h1, nx1, x) = some (h', nx', r) → ∀ m, ¬ R m → h' m = h m := by
-        intro x hx
-        simp only [Option.some.injEq, Prod.mk.injEq] at hx
-        obtain ⟨e, _, _⟩ := hx; subst e; exact hfr
+    · next hv =>
+      have fin : ∀ x, x = v → some (h1, nx1, x) = some (h', nx', r) →
+          (∀ m, ¬ R m → h' m = h m) ∧ Region h' R ∧ (∀ c, Item.node c ∈ itemOfValue r → R c) := by
+        intro x hx he'
+        simp only [Option.some.injEq, Prod.mk.injEq] at he'
+        obtain ⟨e, _, e3⟩ := he'; subst e; subst e3; subst hx
+        exact ⟨hfr, hR1, hvalR hv⟩
       split at he
       · cases he
       · cases he
       · split at he
-        · exact fin _ he
+        · exact fin _ rfl he
         · cases he
-      · exact fin _ he
+      · exact fin _ rfl he
 
 /-- **`transform(fun, copy=True)` leaves its argument untouched** (frame corollary): every cell that existed before the
-    call — args, back pointers and hash caches of the argument tree and of every other tree — is unchanged, and the
-    invariant is kept, for a user function that works inside the copy. -/
+    call — args, back pointers and hash caches of the argument tree and of every other tree — is unchanged, the
+    invariant is kept, and the RESULT SHARES NO NODE WITH THE ARGUMENT; for a user function that works inside the copy. -/
 theorem opTransformCopy_pure (F : HashFns H) {fuel : Nat} {fn : UserFun H} {h0 h' : Heap H} {base nx' : Nat} {root : Id}
     {r : Value} (hI0 : Inv F h0) (hf0 : FreshFrom h0 base) (hn : base > root)
     (hfr : ∀ h1 nx1 c, opDeepcopy fuel h0 root base = some (h1, nx1, c) →
       TransformFr (fun m => base ≤ m) fuel fn h1 nx1 c ∧ TransformAdm F fuel fn h1 nx1 c)
     (he : opTransformCopy fuel fn h0 base root = some (h', nx', r)) :
-    (∀ m, m < base → h' m = h0 m) ∧ Inv F h' := by
+    (∀ m, m < base → h' m = h0 m) ∧ Inv F h' ∧
+    (∀ c m, Item.node c ∈ itemOfValue r → Reach h' c m → ¬ Reach h' root m) := by
   unfold opTransformCopy at he
   split at he
   · next h1 nx1 c hc =>
     obtain ⟨hI1, _, hfr1, hreg1, hcb, _⟩ := deepcopy_spec hI0 hf0 hn hc
     obtain ⟨a1, a2⟩ := hfr h1 nx1 c hc
-    refine ⟨?_, inv_opTransform F hI1 a2 he⟩
-    intro m hm
-    have := opTransform_frame hreg1 hI1.keys (by rw [hcb]; exact Nat.le_refl _) a1 he m (by omega)
-    rw [this, hfr1 m hm]
+    obtain ⟨f1, f2, f3⟩ := opTransform_frame hreg1 hI1.keys (by rw [hcb]; exact Nat.le_refl _) a1 he
+    have hold : ∀ m, m < base → h' m = h0 m := by
+      intro m hm
+      rw [f1 m (by omega), hfr1 m hm]
+    refine ⟨hold, inv_opTransform F hI1 a2 he, ?_⟩
+    intro c' m hc' hr1 hr2
+    have hge : base ≤ m := reach_in_region f2 (f3 c' hc') hr1
+    have hlt : base > m := by
+      clear hr1 hge
+      induction hr2 with
+      | refl => exact hn
+      | step _ hs ih =>
+        obtain ⟨a, hg, ha⟩ := hs
+        rw [hold _ ih] at hg
+        exact child_below hI0 hf0 (getKey_mem hg) ha
+    omega
   · cases he
+
+/-! ### the "nothing to do" case: a user function that returns every node unchanged -/
+
+/-- `lambda node: node` — what `expand`'s `_expand` is when no table names a source (empty or unreferenced sources) -/
+def idFun : UserFun H := fun h nx n => some (h, nx, .node n)
+
+theorem transformStep_id {fuel : Nat} {h : Heap H} {nx : Nat} {node : Id} :
+    transformStep fuel (idFun (H := H)) h nx node = some (h, nx, true) := by
+  simp [transformStep, idFun]
+
+theorem trFr_id (R : Id → Prop) (fuel : Nat) : ∀ (f : Nat) (h : Heap H) (nx : Nat) (st : List Id),
+    TrFr R fuel (idFun (H := H)) f h nx st
+  | 0, _, _, _ => trivial
+  | _ + 1, _, _, [] => trivial
+  | f + 1, h, nx, node :: st => by
+    intro h1 nx1 v hfn
+    simp only [idFun, Option.some.injEq, Prod.mk.injEq] at hfn
+    obtain ⟨e1, e2, e3⟩ := hfn; subst e1; subst e2; subst e3
+    refine ⟨fun _ _ => rfl, fun a b => ⟨a, b⟩, fun hne => absurd rfl hne, ?_⟩
+    intro h2 nx2 d _
+    exact trFr_id R fuel f h2 nx2 _
+
+theorem trAdm_id (F : HashFns H) (fuel : Nat) : ∀ (f : Nat) (h : Heap H) (nx : Nat) (st : List Id),
+    TrAdm F fuel (idFun (H := H)) f h nx st
+  | 0, _, _, _ => trivial
+  | _ + 1, _, _, [] => trivial
+  | f + 1, h, nx, node :: st => by
+    intro h1 nx1 v hfn
+    simp only [idFun, Option.some.injEq, Prod.mk.injEq] at hfn
+    obtain ⟨e1, e2, e3⟩ := hfn; subst e1; subst e2; subst e3
+    refine ⟨fun a => a, fun hne => absurd rfl hne, ?_⟩
+    intro h2 nx2 d _
+    exact trAdm_id F fuel f h2 nx2 _
+
+/-- even when the user function has nothing to do, `transform(copy=True)` returns the fresh copy: a different root, no
+    shared node, the argument untouched -/
+theorem opTransformCopy_id (F : HashFns H) {fuel : Nat} {h0 h' : Heap H} {base nx' : Nat} {root : Id} {r : Value}
+    (hI0 : Inv F h0) (hf0 : FreshFrom h0 base) (hn : base > root)
+    (he : opTransformCopy fuel (idFun (H := H)) h0 base root = some (h', nx', r)) :
+    r = .node base ∧ (∀ m, m < base → h' m = h0 m) ∧ (∀ m, Reach h' base m → ¬ Reach h' root m) := by
+  have hr : r = .node base := by
+    unfold opTransformCopy at he
+    split at he
+    · next h1 nx1 c hc =>
+      have hcb := (deepcopy_spec hI0 hf0 hn hc).2.2.2.2.1
+      unfold opTransform at he
+      simp only [idFun, if_true] at he
+      split at he
+      · simp only [Option.some.injEq, Prod.mk.injEq] at he
+        rw [← he.2.2, hcb]
+      · cases he
+    · cases he
+  obtain ⟨a, _, c⟩ := opTransformCopy_pure F hI0 hf0 hn (fun h1 nx1 c _ =>
+    ⟨fun h1' nx1' v hfn => by
+        simp only [idFun, Option.some.injEq, Prod.mk.injEq] at hfn
+        obtain ⟨e1, e2, e3⟩ := hfn; subst e1; subst e2; subst e3
+        exact ⟨fun _ _ => rfl, fun x y => ⟨x, y⟩, fun hne => absurd rfl hne, fun _ => trFr_id _ fuel fuel _ _ _⟩,
+     fun h1' nx1' v hfn => by
+        simp only [idFun, Option.some.injEq, Prod.mk.injEq] at hfn
+        obtain ⟨e1, e2, e3⟩ := hfn; subst e1; subst e2; subst e3
+        exact ⟨fun x => x, fun _ => trAdm_id F fuel fuel _ _ _⟩⟩) he
+  refine ⟨hr, a, ?_⟩
+  intro m hm
+  exact c base m (by rw [hr]; simp [itemOfValue]) hm
 
 end SqlglotModel.Tree
